@@ -147,15 +147,37 @@ fn is_v4(c: &BConf) -> Option<bool> {
     }
 }
 
+struct ShortSink {
+    v: Vec<u8>,
+    /// 0: everything offered
+    chunk: usize,
+}
+
+impl std::io::Write for ShortSink {
+    fn write(&mut self, buf: &[u8]) -> std::io::Result<usize> {
+        let n = if self.chunk == 0 { buf.len() } else { buf.len().min(self.chunk) };
+        self.v.extend_from_slice(&buf[..n]);
+        Ok(n)
+    }
+    fn flush(&mut self) -> std::io::Result<()> {
+        Ok(())
+    }
+}
+
 impl C10 {
     fn check(&mut self, rep: &mut Report, c: &BConf, payload: &[u8], engine: &str) {
         let ctx = format!("{:?} payload {} bytes", c, payload.len());
         rep.evals += 1;
         shell::progress_entry(1000);
+        let chunk = (payload.len() + ctx.len()) % 4;
+        rep.count(if chunk == 0 { "writer_door.sink_takes_all" } else { "writer_door.sink_takes_1_to_3_octets_per_call" });
         let res = shell::guarded(|| {
             let size = builder::run(c, Out::Size(payload.len()), payload);
-            let mut v1: Vec<u8> = Vec::new();
-            let r1 = builder::run(c, Out::Writer(&mut v1), payload);
+            // `io::Write::write` may take fewer octets than offered: in three cases of four the
+            // sink of the `write` door accepts at most 1 - 3 octets per call
+            let mut sink = ShortSink { v: Vec::new(), chunk };
+            let r1 = builder::run(c, Out::Writer(&mut sink), payload);
+            let v1 = sink.v;
             let mut v2: Vec<u8> = Vec::new();
             let r2 = builder::run(c, Out::Vec(&mut v2), payload);
             let n = match size {
